@@ -74,3 +74,148 @@ pub fn guarded<T>(f: impl FnOnce() -> T + std::panic::UnwindSafe) -> Result<T, S
 pub fn quiet_panics() {
     std::panic::set_hook(Box::new(|_| {}));
 }
+
+// ------------------------------------------------------------------------------------------
+// Running programs through the real toolchain with output capture (hooks H1-H3 required).
+pub mod runner {
+    use aelys_common::error::{AelysError, RuntimeErrorKind};
+    use aelys_opt::OptimizationLevel;
+    use aelys_runtime::{VM, Value, VmConfig};
+
+    #[derive(Debug, Clone, PartialEq, Eq)]
+    pub struct Outcome {
+        /// "ok", "compile-error", "runtime:<Kind>", "panic", "budget"
+        pub class: String,
+        pub output: String,
+        /// printed final value (value_to_string) when class == ok
+        pub value: String,
+        pub detail: String,
+    }
+
+    pub fn opt_level(n: u32) -> OptimizationLevel {
+        match n {
+            0 => OptimizationLevel::None,
+            1 => OptimizationLevel::Basic,
+            2 => OptimizationLevel::Standard,
+            _ => OptimizationLevel::Aggressive,
+        }
+    }
+
+    pub fn kind_name(k: &RuntimeErrorKind) -> &'static str {
+        match k {
+            RuntimeErrorKind::TypeError { .. } => "TypeError",
+            RuntimeErrorKind::DivisionByZero => "DivisionByZero",
+            RuntimeErrorKind::UndefinedVariable(_) => "UndefinedVariable",
+            RuntimeErrorKind::NotCallable(_) => "NotCallable",
+            RuntimeErrorKind::ArityMismatch { .. } => "ArityMismatch",
+            RuntimeErrorKind::StackOverflow => "StackOverflow",
+            RuntimeErrorKind::InvalidAllocationSize { .. } => "InvalidAllocationSize",
+            RuntimeErrorKind::OutOfMemory { .. } => "OutOfMemory",
+            RuntimeErrorKind::InvalidMemoryHandle => "InvalidMemoryHandle",
+            RuntimeErrorKind::DoubleFree => "DoubleFree",
+            RuntimeErrorKind::UseAfterFree => "UseAfterFree",
+            RuntimeErrorKind::MemoryOutOfBounds { .. } => "MemoryOutOfBounds",
+            RuntimeErrorKind::NegativeMemoryIndex { .. } => "NegativeMemoryIndex",
+            RuntimeErrorKind::InvalidConstantIndex { .. } => "InvalidConstantIndex",
+            RuntimeErrorKind::InvalidOpcode { .. } => "InvalidOpcode",
+            RuntimeErrorKind::InvalidRegister { .. } => "InvalidRegister",
+            RuntimeErrorKind::InvalidBytecode(m) => {
+                if m.contains("verif instruction budget") { "Budget" } else { "InvalidBytecode" }
+            }
+            RuntimeErrorKind::CapabilityDenied { .. } => "CapabilityDenied",
+            RuntimeErrorKind::NativeError { .. } => "NativeError",
+            RuntimeErrorKind::IndexOutOfBounds { .. } => "IndexOutOfBounds",
+        }
+    }
+
+    pub fn classify(r: Result<Result<(Value, String), AelysError>, String>, output: String) -> Outcome {
+        match r {
+            Ok(Ok((_v, s))) => Outcome { class: "ok".into(), output, value: s, detail: String::new() },
+            Ok(Err(AelysError::Compile(e))) => Outcome { class: "compile-error".into(), output, value: String::new(), detail: format!("{}", e) },
+            Ok(Err(AelysError::Runtime(e))) => {
+                let k = kind_name(&e.kind);
+                let class = if k == "Budget" { "budget".to_string() } else { format!("runtime:{}", k) };
+                Outcome { class, output, value: String::new(), detail: e.kind.message() }
+            }
+            Err(p) => Outcome { class: "panic".into(), output, value: String::new(), detail: p },
+        }
+    }
+
+    /// Compile and run `source` with a fresh VM (REPL-style entry point so that stdlib globals
+    /// such as print/println are known), capturing output.
+    /// gc: (mode, k) as in aelys_runtime::verif::gc_mode_set; budget: instruction budget.
+    #[cfg(vbxq_aelys_lang_verif)]
+    pub fn run_program(source: &str, opt: u32, gc: (u8, u64), budget: u64, config: Option<VmConfig>) -> Outcome {
+        use aelys_runtime::verif;
+        let src = source.to_string();
+        verif::sink_install();
+        verif::gc_mode_set(gc.0, gc.1);
+        verif::budget_set(budget);
+        let r = crate::guarded(std::panic::AssertUnwindSafe(move || {
+            let cfg = config.unwrap_or_default();
+            let mut vm = match aelys_driver::new_vm_with_config(cfg, Vec::new()) {
+                Ok(vm) => vm,
+                Err(e) => return Err(e),
+            };
+            let v = aelys_driver::run_with_vm_and_opt(&mut vm, &src, "<verif>", opt_level(opt))?;
+            let s = vm.value_to_string(v);
+            Ok((v, s))
+        }));
+        let out = verif::sink_take();
+        verif::budget_set(u64::MAX);
+        verif::gc_mode_set(0, 0);
+        classify(r, out)
+    }
+
+    /// Run one input on an existing VM (REPL session).
+    #[cfg(vbxq_aelys_lang_verif)]
+    pub fn run_on_vm(vm: &mut VM, source: &str, opt: u32, budget: u64) -> Outcome {
+        use aelys_runtime::verif;
+        verif::sink_install();
+        verif::budget_set(budget);
+        let r = crate::guarded(std::panic::AssertUnwindSafe(|| {
+            let v = aelys_driver::run_with_vm_and_opt(vm, source, "<verif>", opt_level(opt))?;
+            let s = vm.value_to_string(v);
+            Ok((v, s))
+        }));
+        let out = verif::sink_take();
+        verif::budget_set(u64::MAX);
+        classify(r, out)
+    }
+
+    /// One-line, tab-free, escaped rendering used by all the line-oriented binaries.
+    pub fn esc(s: &str) -> String {
+        let mut o = String::new();
+        for c in s.chars() {
+            match c {
+                '\\' => o.push_str("\\\\"),
+                '\n' => o.push_str("\\n"),
+                '\t' => o.push_str("\\t"),
+                '\r' => o.push_str("\\r"),
+                c if (c as u32) < 0x20 => o.push_str(&format!("\\x{:02x}", c as u32)),
+                c => o.push(c),
+            }
+        }
+        o
+    }
+    pub fn unesc(s: &str) -> String {
+        let mut o = String::new();
+        let mut it = s.chars();
+        while let Some(c) = it.next() {
+            if c != '\\' { o.push(c); continue; }
+            match it.next() {
+                Some('n') => o.push('\n'),
+                Some('t') => o.push('\t'),
+                Some('r') => o.push('\r'),
+                Some('\\') => o.push('\\'),
+                Some('x') => {
+                    let h: String = it.by_ref().take(2).collect();
+                    if let Ok(v) = u8::from_str_radix(&h, 16) { o.push(v as char); }
+                }
+                Some(c) => { o.push('\\'); o.push(c); }
+                None => o.push('\\'),
+            }
+        }
+        o
+    }
+}
